@@ -267,9 +267,9 @@ theorem tie_swift_enum (U : UnicodeOps) (c : Swift.Cfg) (e : RustEnum) (st st' :
   simp [innerDefName, List.filterMap_eq_map', Function.comp_def]
 
 /-- the payload of a struct variant's case is the helper struct's name (plus its generic arguments) -/
-theorem tie_swift_case (c : Swift.Cfg) (e : RustEnum) (id : Id) (cs : List Str) (fs : List RustField)
+theorem tie_swift_case {U : UnicodeOps} (c : Swift.Cfg) (e : RustEnum) (id : Id) (cs : List Str) (fs : List RustField)
     (st st' : Swift.St) (k : Swift.EnumCase)
-    (h : Swift.algebraicCase c e (.anonymousStruct id cs fs) st = .ok (k, st')) :
+    (h : Swift.algebraicCase U c e (.anonymousStruct id cs fs) st = .ok (k, st')) :
     ∃ g, k.payload = some ⟨c.pfx ++ Swift.anonymousStructName e id.original ++ g, false⟩ ∧
       innerRefs (.swift c) e id.original =
         [⟨c.pfx ++ Swift.anonymousStructName e id.original, .inner e.id.original id.original, false⟩] := by
